@@ -35,6 +35,7 @@ class World:
         self.param_calls = []  # (task, client_index, ordinal)
         self.created_clients = []
         self.faults = {}
+        self.max_requests = 200_000  # a scenario that issues more requests than this never ends as far as the harness is concerned
 
     # ------------------------------------------------------------------ scripts
     def request_spec(self, task_name, client_index, ordinal):
@@ -186,6 +187,8 @@ class SimRunner:
             "outcome": spec.get("outcome", "ok"),
         }
         w.request_log.append(entry)
+        if len(w.request_log) > w.max_requests:
+            raise kernel.HorizonExceeded(f"more than {w.max_requests} requests")
         fault = w.faults.get("runner")
         if fault and fault["task"] == task and fault["client"] == client and fault["ordinal"] == ordinal:
             fault["fired_at"] = w.clock.now
